@@ -153,7 +153,7 @@ var productions = []production{
 	{"mod", "binary", "int", "§int % b"},
 	{"or", "binary", "int", "§int | 6"},
 	{"and", "binary", "int", "§int & 3"},
-	{"xor", "binary", "int", "§int ^ 5"},
+	{"xor", "binary", "int", "a ^ 5"},
 	{"shl", "binary", "int", "§int << 2"},
 	{"shr", "binary", "int", "§int >> 1"},
 	{"prec-1", "precedence", "int", "§int + b * 3"},
@@ -430,18 +430,18 @@ var positions = []position{
 	{"if-init", "header", "int", "if v := §; v == 1 {\n    fmt.Println(\"then\", v)\n} else {\n    fmt.Println(\"else\", v)\n}\n", false},
 	{"if-init-cond", "header", "int", "if v := 1; v == § {\n    fmt.Println(\"then\", v)\n} else {\n    fmt.Println(\"else\", v)\n}\n", false},
 	{"else-if-cond", "header", "int", "if a == 5 {\n    fmt.Println(\"first\")\n} else if § == 1 {\n    fmt.Println(\"second\")\n} else {\n    fmt.Println(\"third\")\n}\n", false},
-	{"for-cond", "header", "int", "for n < § {\n    n++\n}\n\nfmt.Println(\"n\", n)\n", false},
-	{"for3-init", "header", "int", "for i := §; i < 3; i++ {\n    fmt.Println(\"i\", i)\n}\n", false},
-	{"for3-cond", "header", "int", "for i := 0; i < §; i++ {\n    fmt.Println(\"i\", i)\n}\n", false},
-	{"for3-post", "header", "int", "for i := 0; i < 3; i = § * 0 + i + 1 {\n    fmt.Println(\"i\", i)\n}\n", false},
+	{"for-cond", "header", "int", "for n < § {\n    n++\n\n    if n > 40 {\n        break\n    }\n}\n\nfmt.Println(\"n\", n)\n", false},
+	{"for3-init", "header", "int", "for i := §; i < 3; i++ {\n    fmt.Println(\"i\", i)\n\n    if i < -40 {\n        break\n    }\n}\n", false},
+	{"for3-cond", "header", "int", "for i := 0; i < §; i++ {\n    fmt.Println(\"i\", i)\n\n    if i > 40 {\n        break\n    }\n}\n", false},
+	{"for3-post", "header", "int", "for i := 0; i < 3; n = § {\n    fmt.Println(\"i\", i, n)\n    i++\n}\n", false},
 	{"switch-tag", "header", "int", "switch § {\ncase 1:\n    fmt.Println(\"one\")\ndefault:\n    fmt.Println(\"other\")\n}\n", false},
 	{"switch-init", "header", "int", "switch v := §; v {\ncase 1:\n    fmt.Println(\"one\", v)\ndefault:\n    fmt.Println(\"other\", v)\n}\n", false},
 	{"switch-init-tag", "header", "int", "switch v := 1; v + § {\ncase 2:\n    fmt.Println(\"two\", v)\ndefault:\n    fmt.Println(\"other\", v)\n}\n", false},
-	{"range-int", "header", "int", "for i := range § {\n    fmt.Println(\"i\", i)\n}\n", false},
+	{"range-int", "header", "int", "for i := range § {\n    fmt.Println(\"i\", i)\n\n    if i > 40 {\n        break\n    }\n}\n", false},
 	// control-flow headers, bool
 	{"if-bool", "header", "bool", "if § {\n    fmt.Println(\"then\")\n} else {\n    fmt.Println(\"else\")\n}\n", true},
 	{"for-bool", "header", "bool", "for § {\n    fmt.Println(\"once\")\n\n    break\n}\n", false},
-	{"for3-cond-bool", "header", "bool", "for i := 0; § && i < 2; i++ {\n    fmt.Println(\"i\", i)\n}\n", false},
+	{"for3-cond-bool", "header", "bool", "for i := 0; § && i < 2; i++ {\n    fmt.Println(\"i\", i)\n\n    if i > 40 {\n        break\n    }\n}\n", false},
 	{"if-init-bool", "header", "bool", "if v := 3; § {\n    fmt.Println(\"then\", v)\n}\n", false},
 	// control-flow headers, string
 	{"if-str", "header", "str", "if § == \"str\" {\n    fmt.Println(\"then\")\n} else {\n    fmt.Println(\"else\")\n}\n", true},
